@@ -28,7 +28,7 @@ CFG = dict(
     assumptions=["packets of one group arrive in sequence order and belong to groups seen at start-up",
                  "all groups use the same number of frames per packet (otherwise demuxData panics: excluded point, run and recorded)"],
     timeout=dict(quick=600, thorough=3600),
-    lean_files=["C03", "ComposeAbaco", "UdpPackets", "ComposeUdp"],
+    lean_files=["C03", "ComposeAbaco", "UdpPackets", "ComposeUdp", "ComposeUdpFiles"],
 )
 
 MANIFEST = dict(
